@@ -77,7 +77,9 @@ pub fn run(opts: &Opts, rep: &Report) {
     crate::mctool::stage("C03", tier, opts.seed, &Budget::new(opts.budget_s * 0.2), rep);
     let budget = Budget::new(opts.budget_s);
     let scratch = Report::new("C03", tier, opts.seed, "model_checking");
-    let all: Vec<_> = cases(tier, opts.seed, &scratch).into_iter().filter(|c| c.expect_fail).collect();
+    // the sessions the oracle expects to fail, plus every session of the corner systems (a counterexample reported
+    // where none exists cannot replay: it is judged here as a witness, and in C02 as a verdict)
+    let all: Vec<_> = cases(tier, opts.seed, &scratch).into_iter().filter(|c| c.expect_fail || c.spec.name.starts_with("X-")).collect();
     rep.add("failing_sessions_enumerated", all.len() as u64);
     let threads = crate::common::n_threads();
     let alt_cap = if tier.is_thorough() { 260 } else { 24 };
